@@ -291,6 +291,20 @@ def case_histogram(ctx, inp):
     g = r.compute(scheduler="sync")
     _cmp(ctx, "histogram", g, e, exact=(w is None and not inp.get("density")))
     _cmp(ctx, "histogram edges", np.asarray(re_.compute(scheduler="sync") if hasattr(re_, "compute") else re_), ee, exact=False)
+    if w is not None:
+        # joint: the weighted, the unweighted and a differently weighted histogram of the SAME data in ONE graph
+        # (seed C27-2: key names that do not depend on `weights` make one definition overwrite the other)
+        import dask
+        kw0 = {k: v for k, v in kw_da.items() if k != "weights"}
+        kw2 = dict(kw_da, weights=da.from_array(2.0 * w + 1.0, chunks=chunks))
+        r0, r2 = da.histogram(d, **kw0)[0], da.histogram(d, **kw2)[0]
+        j0, j1, j2 = dask.compute(r0, r, r2, scheduler="sync")
+        e0 = np.histogram(x, **{k: v for k, v in kw_np.items() if k != "weights"})[0]
+        e2 = np.histogram(x, **dict(kw_np, weights=2.0 * w + 1.0))[0]
+        _cmp(ctx, "histogram joint: unweighted", j0, e0, exact=not inp.get("density"))
+        _cmp(ctx, "histogram joint: weighted", j1, e, exact=False)
+        _cmp(ctx, "histogram joint: other weights", j2, e2, exact=False)
+        ctx.branch("histogram:joint-weighted-and-unweighted")
     if "edges" in inp and x.size:
         ed = inp["edges"]
         flat = x.ravel().tolist()
